@@ -48,8 +48,8 @@ PROPS["C01"] = {
         rapid("shared-writer", "rtpconn", "TestVerif_C01_SharedWriter", 300, 3000),
     ],
     "assumptions": [
-        "arrivals stay within 8000 packets of the head (strictly inside the 8192 re-sync window the property quantifies over)",
-        "sequential interleavings only (no concurrent Write calls on one down track)",
+        "within an epoch arrivals stay within 8000 packets of the head (strictly inside the 8192 re-sync window the property quantifies over); the source numbering may jump beyond the window, which starts a new epoch",
+        "no concurrent Write calls on one down track; several down tracks are driven concurrently (shared-writer, C02 concurrent-receivers)",
     ],
 }
 
@@ -105,7 +105,7 @@ PROPS["C06"] = {
         rapid("nack-relay", "rtpconn", "TestVerif_C06_NackRelay", 160, 1200, shards=8, quick_shards=8),
     ],
     "technique": "model-based property testing (rapid): loss bitmap / statistics / NACK packing against a model with extended seqnos; real readLoop with captured RTCP",
-    "assumptions": ["the packet-rate estimate is 0 in a fast test, so only the 2-packet NACK threshold is exercised",
+    "assumptions": ["the packet-rate estimate the receive loop derives its lateness threshold from is drawn (the estimator's last result is overwritten), not measured",
                     "'is requested from the publisher' is checked as 'a NACK was written to the PeerConnection'"],
 }
 
@@ -233,7 +233,7 @@ PROPS["C18"] = {
         crash("fault-points", "group", "group", 6, 48, mode="fault"),
     ],
     "technique": "property-based testing (rapid): header grammar vs reference, API sequences with a string-based tag oracle, racing writers + concurrent readers, writers parked between precondition check and body (Expect: 100-continue) while others write, crash-point and fault-point enumeration with strace fault injection",
-    "assumptions": ["process crashes at syscall boundaries only (no power-loss model)", "successive versions differ in size (bodies of distinct sizes); equal-size-equal-mtime versions are counted, not judged"],
+    "assumptions": ["process crashes at syscall boundaries only (no power-loss model)", "successive versions differ in size or (same size) in modification time; equal-size-equal-mtime versions are counted, not judged"],
 }
 
 PROPS["C16"] = {
@@ -280,7 +280,7 @@ PROPS["C07"] = {
         rapid("push-timer", "rtpconn", "TestVerif_C07_PushTimer", 96, 300, quick_shards=8, timeout={"quick": 900, "thorough": 3600}),
     ],
     "technique": "model-based stateful property testing (rapid) of the many-client signalling state machine with real pion offers/answers",
-    "assumptions": ["publisher streams are real rtpUpConnections with fabricated tracks pushed through pushConnNow; the 200 ms coalescing timer of pushConn is bypassed",
+    "assumptions": ["publisher streams are real rtpUpConnections with fabricated tracks; subscription-machine announces them through pushConnNow, push-timer through the real pushConn with its 200 ms coalescing timer",
                     "media flow after the offer is not observed; ICE candidates are ignored"],
 }
 
